@@ -33,6 +33,8 @@ struct Inner {
     resp_body: Vec<u8>,
     resp_trailers: Option<HeaderMap>,
     chunking: Chunking,
+    /// the response body announces its exact length (size_hint) and its end
+    sized: bool,
     ch: Chooser,
     stats: Arc<Mutex<Option<Arc<crate::env::BodyStats>>>>,
 }
@@ -59,6 +61,7 @@ impl Service<http::Request<tonic::body::Body>> for Inner {
                 s.body = c;
             }
             let sb = ScriptBody::new(this.resp_body.clone(), this.resp_trailers.clone(), this.chunking.clone(), &this.ch);
+            let sb = if this.sized { sb.with_exact_size() } else { sb };
             *this.stats.lock().unwrap() = Some(sb.stats());
             let mut r = http::Response::new(sb);
             *r.headers_mut() = this.resp_headers.clone();
@@ -112,6 +115,8 @@ struct RespCase {
     drip: bool,
     /// the request itself is grpc-web-text (the response form must still follow Accept)
     req_text: bool,
+    /// the inner response body announces its exact length
+    sized: bool,
 }
 
 fn resp_body(c: &RespCase, ch: &Chooser) -> Outcome {
@@ -119,7 +124,7 @@ fn resp_body(c: &RespCase, ch: &Chooser) -> Outcome {
     let chunking = if c.drip { Chunking::Fixed(vec![1]) } else { Chunking::Choose { free: c.free, pending: !c.free, empty: !c.free } };
     let seen = Arc::new(Mutex::new(Seen::default()));
     let stats = Arc::new(Mutex::new(None));
-    let inner = Inner { seen: seen.clone(), resp_headers: grpc_headers(), resp_body: body.clone(), resp_trailers: Some(to_map(&c.trailers)), chunking, ch: ch.clone(), stats: stats.clone() };
+    let inner = Inner { seen: seen.clone(), resp_headers: grpc_headers(), resp_body: body.clone(), resp_trailers: Some(to_map(&c.trailers)), chunking, sized: c.sized, ch: ch.clone(), stats: stats.clone() };
     let mut svc = GrpcWebLayer::new().layer(inner);
     let mut b = http::Request::builder().method("POST").uri("/fx.Echo/Unary").version(http::Version::HTTP_11).header("content-type", if c.req_text { "application/grpc-web-text" } else { "application/grpc-web+proto" });
     if let Some(a) = c.accept {
@@ -233,9 +238,10 @@ fn resp_cases(tier: Tier) -> Vec<RespCase> {
                 if tier == Tier::Quick && ti > 0 && (ai + ti) % 3 != 0 {
                     continue;
                 }
-                out.push(RespCase { frames: frames.clone(), trailers: tr.clone(), accept: *accept, free: len <= free_limit && len > 0, drip: false, req_text: false });
-                out.push(RespCase { frames: frames.clone(), trailers: tr.clone(), accept: *accept, free: false, drip: false, req_text: true });
-                out.push(RespCase { frames: frames.clone(), trailers: tr.clone(), accept: *accept, free: false, drip: true, req_text: false });
+                out.push(RespCase { frames: frames.clone(), trailers: tr.clone(), accept: *accept, free: len <= free_limit && len > 0, drip: false, req_text: false, sized: false });
+                out.push(RespCase { frames: frames.clone(), trailers: tr.clone(), accept: *accept, free: false, drip: false, req_text: true, sized: false });
+                out.push(RespCase { frames: frames.clone(), trailers: tr.clone(), accept: *accept, free: false, drip: true, req_text: false, sized: false });
+                out.push(RespCase { frames: frames.clone(), trailers: tr.clone(), accept: *accept, free: false, drip: false, req_text: ai % 2 == 1, sized: true });
             }
         }
     }
@@ -259,7 +265,7 @@ fn req_body(c: &ReqCase, ch: &Chooser) -> Outcome {
     let sent: Vec<u8> = if text { b64::encode(&grpc, true).into_bytes() } else { grpc.clone() };
     let chunking = if c.drip { Chunking::Fixed(vec![1]) } else { Chunking::Choose { free: true, pending: false, empty: false } };
     let seen = Arc::new(Mutex::new(Seen::default()));
-    let inner = Inner { seen: seen.clone(), resp_headers: grpc_headers(), resp_body: vec![], resp_trailers: Some(to_map(&vec![("grpc-status".into(), b"0".to_vec())])), chunking: Chunking::Fixed(vec![]), ch: ch.clone(), stats: Default::default() };
+    let inner = Inner { seen: seen.clone(), resp_headers: grpc_headers(), resp_body: vec![], resp_trailers: Some(to_map(&vec![("grpc-status".into(), b"0".to_vec())])), chunking: Chunking::Fixed(vec![]), sized: false, ch: ch.clone(), stats: Default::default() };
     let mut svc = GrpcWebLayer::new().layer(inner);
     let sb = ScriptBody::new(sent.clone(), None, chunking, ch);
     let stats = sb.stats();
@@ -337,9 +343,15 @@ fn disp_body(c: &DispCase, ch: &Chooser) -> Outcome {
     rh.insert("content-type", HeaderValue::from_static("application/whatever"));
     rh.insert("x-resp", HeaderValue::from_static("r"));
     let inner_body = b"inner-body-bytes".to_vec();
-    let inner = Inner { seen: seen.clone(), resp_headers: rh, resp_body: inner_body.clone(), resp_trailers: Some(to_map(&vec![("grpc-status".into(), b"0".to_vec())])), chunking: Chunking::Fixed(vec![]), ch: ch.clone(), stats: Default::default() };
+    let inner = Inner { seen: seen.clone(), resp_headers: rh, resp_body: inner_body.clone(), resp_trailers: Some(to_map(&vec![("grpc-status".into(), b"0".to_vec())])), chunking: Chunking::Fixed(vec![]), sized: false, ch: ch.clone(), stats: Default::default() };
     let mut svc = GrpcWebLayer::new().layer(inner);
-    let body_bytes = wire::encode_frame(0, &[1, 2]);
+    let frame_bytes = wire::encode_frame(0, &[1, 2]);
+    let lower = c.content_type.map(|ct| ct.to_ascii_lowercase());
+    let is_exact = |ct: Option<&str>| matches!(ct, Some("application/grpc-web") | Some("application/grpc-web+proto") | Some("application/grpc-web-text") | Some("application/grpc-web-text+proto"));
+    // a grpc-web media type spelled with other letter case (media types are case-insensitive, so
+    // a layer may take it for grpc-web or not — but it has to make up its mind)
+    let case_variant = is_exact(lower.as_deref()) && !is_exact(c.content_type);
+    let body_bytes = if case_variant && lower.as_deref().map(|l| l.contains("-text")).unwrap_or(false) { b64::encode(&frame_bytes, true).into_bytes() } else { frame_bytes.clone() };
     let mut b = http::Request::builder().method(c.method).uri("/fx.Echo/Unary?q=1").version(c.version).header("x-custom", "v");
     if let Some(ct) = c.content_type {
         b = b.header("content-type", ct);
@@ -358,7 +370,31 @@ fn disp_body(c: &DispCase, ch: &Chooser) -> Outcome {
     let s = seen.lock().unwrap().clone();
     let mut o = Outcome::new(format!("status={} calls={} resp-hdr[{}] resp-body={} trailers={:?} inner-hdr[{}]", parts.status, s.calls, fmt_headers(&parts.headers), hex(&got.bytes()), got.trailers.iter().map(fmt_headers).collect::<Vec<_>>(), fmt_headers(&s.headers)));
     o.nontrivial = true;
-    let exact_web = matches!(c.content_type, Some("application/grpc-web") | Some("application/grpc-web+proto") | Some("application/grpc-web-text") | Some("application/grpc-web-text+proto"));
+    if case_variant {
+        let as_other = if c.version == http::Version::HTTP_2 {
+            s.calls == 1
+                && s.body.bytes() == body_bytes
+                && s.headers.get("content-type").map(|v| v.as_bytes()) == c.content_type.map(|c| c.as_bytes())
+                && parts.status == http::StatusCode::OK
+                && got.bytes() == inner_body
+                && parts.headers.get("content-type").map(|v| v.as_bytes()) == Some(b"application/whatever")
+        } else {
+            parts.status == http::StatusCode::BAD_REQUEST && s.calls == 0
+        };
+        let as_web = if c.method == "POST" {
+            s.calls == 1 && parts.status == http::StatusCode::OK && s.headers.get("content-type").map(|v| v.as_bytes()) == Some(b"application/grpc") && s.body.bytes() == frame_bytes
+        } else {
+            parts.status == http::StatusCode::METHOD_NOT_ALLOWED && s.calls == 0
+        };
+        if !as_other && !as_web {
+            o.violate(
+                "case-variant-content-type-half-recognised",
+                format!("content-type {:?} was treated neither as grpc-web (inner service gets the original gRPC bytes under application/grpc; non-POST 405) nor as something else (HTTP/1: 400, HTTP/2: untouched): status {} inner calls {} inner content-type {:?} inner body {}", c.content_type, parts.status, s.calls, s.headers.get("content-type"), hex(&s.body.bytes())),
+            );
+        }
+        return o;
+    }
+    let exact_web = is_exact(c.content_type);
     let maybe_web = c.content_type.map(|ct| ct.starts_with("application/grpc-web")).unwrap_or(false);
     if maybe_web && !exact_web {
         // a grpc-web media type with parameters: the statement does not say which family it is
@@ -407,9 +443,9 @@ pub fn property(tier: Tier) -> Property {
     let resp = Section::new(
         "responses",
         Config { max_bound: tier.q(2, 3), ..Default::default() },
-        "cases: inner gRPC response = 0..2 message frames (payloads 0/1/3/5 bytes, flags 0/1) + a trailer map from a menu (status only, message with ': ' and spaces, repeated key, binary value, 5 entries) x Accept in {grpc-web, +proto, -text, -text+proto, absent, */*} x request content-type {binary, text}; environment: the inner body is delivered under every chunking (all compositions for bodies <= 14/18 bytes, else <= bound cuts/Pending/empty-frame deviations) plus drip; oracle: independent grpc-web(-text) decoder recovers the identical message frames followed by exactly one 0x80 frame whose header block equals the trailers as a multimap; content-type family follows Accept; no HTTP trailers leak. Non-trivial = inner body delivered in more than one chunk.",
+        "cases: inner gRPC response = 0..2 message frames (payloads 0/1/3/5 bytes, flags 0/1) + a trailer map from a menu (status only, message with ': ' and spaces, repeated key, binary value, 5 entries) x Accept in {grpc-web, +proto, -text, -text+proto, absent, */*} x request content-type {binary, text}, also with an inner body that announces its exact length (size_hint; 0 for a response that is trailers only); environment: the inner body is delivered under every chunking (all compositions for bodies <= 14/18 bytes, else <= bound cuts/Pending/empty-frame deviations) plus drip; oracle: independent grpc-web(-text) decoder recovers the identical message frames followed by exactly one 0x80 frame whose header block equals the trailers as a multimap; content-type family follows Accept; no HTTP trailers leak. Non-trivial = inner body delivered in more than one chunk.",
         resp_cases(tier),
-        |c: &RespCase| format!("frames={:?} trailers={:?} accept={:?} free={} drip={} req_text={}", c.frames, show(&c.trailers), c.accept, c.free, c.drip, c.req_text),
+        |c: &RespCase| format!("frames={:?} trailers={:?} accept={:?} free={} drip={} req_text={} sized={}", c.frames, show(&c.trailers), c.accept, c.free, c.drip, c.req_text, c.sized),
         resp_body,
     )
     .mins(1000, 10, 100);
@@ -432,7 +468,7 @@ pub fn property(tier: Tier) -> Property {
     let mut dcases = vec![];
     for method in ["GET", "POST", "PUT", "OPTIONS", "DELETE"] {
         for version in [http::Version::HTTP_10, http::Version::HTTP_11, http::Version::HTTP_2] {
-            for ct in [Some("application/grpc-web"), Some("application/grpc-web+proto"), Some("application/grpc-web-text"), Some("application/grpc-web-text+proto"), Some("application/grpc"), Some("application/json"), None, Some("application/grpc-web; charset=utf-8")] {
+            for ct in [Some("application/grpc-web"), Some("application/grpc-web+proto"), Some("application/grpc-web-text"), Some("application/grpc-web-text+proto"), Some("application/grpc"), Some("application/json"), None, Some("application/grpc-web; charset=utf-8"), Some("application/grpc-web-Text"), Some("Application/GRPC-Web+proto"), Some("APPLICATION/GRPC-WEB-TEXT+PROTO")] {
                 dcases.push(DispCase { method, version, content_type: ct });
             }
         }
@@ -440,7 +476,7 @@ pub fn property(tier: Tier) -> Property {
     let disp = Section::new(
         "dispatch",
         Config::default(),
-        "cases: method in {GET,POST,PUT,OPTIONS,DELETE} x version in {1.0,1.1,2} x content-type in {4 grpc-web types, application/grpc, application/json, absent, grpc-web with parameters (recorded, not judged)}; oracle: grpc-web POST is served, grpc-web non-POST => 405 without calling the inner service, other HTTP/2 => inner called once with the same method/uri/headers/body and its response (status, headers, body, trailers) returned untouched, other HTTP/1 => 400. All 120 cells count as non-trivial.",
+        "cases: method in {GET,POST,PUT,OPTIONS,DELETE} x version in {1.0,1.1,2} x content-type in {4 grpc-web types, application/grpc, application/json, absent, grpc-web with parameters (recorded, not judged), three grpc-web types spelled with other letter case (judged for consistency only: either fully grpc-web — the inner service gets the original gRPC bytes — or fully something else)}; oracle: grpc-web POST is served, grpc-web non-POST => 405 without calling the inner service, other HTTP/2 => inner called once with the same method/uri/headers/body and its response (status, headers, body, trailers) returned untouched, other HTTP/1 => 400. All cells count as non-trivial.",
         dcases,
         |c: &DispCase| format!("{c:?}"),
         disp_body,
